@@ -39,12 +39,12 @@ Definition ptr_eqb (a b : option (list dir)) : bool :=
 Definition child (d : dir) (l m r : tst) : tst := match d with DL => l | DM => m | DR => r end.
 
 (** paths given root first *)
-Fixpoint node_at (t : tst) (p : list dir) : option tst :=
+Fixpoint node_at (t : tst) (p : list dir) {struct p} : option tst :=
   match p with
   | [] => Some t
   | d :: q => match t with Leaf => None | Node _ _ _ l m r => node_at (child d l m r) q end
   end.
-Fixpoint set_at (t : tst) (p : list dir) (n : tst) : option tst :=
+Fixpoint set_at (t : tst) (p : list dir) (n : tst) {struct p} : option tst :=
   match p with
   | [] => Some n
   | d :: q =>
@@ -200,7 +200,7 @@ Definition tst_remove (s : table) (k : key) (a : alloc_st) : res (stat * option 
   | Node _ _ (Some (_, _, v)) _ _ _ =>
       match postfix with
       | [] =>
-          do '(ids, root', _) <- of_opt Dangling (remove_eow_at (t_root s) (rev p));
+          do (ids, root', _) <- of_opt Dangling (remove_eow_at (t_root s) (rev p));
           do a' <- release_all (t_mem s) ids a;
           Ok (CC_OK, Some v, set_tree s root' (if 0 <? t_size s then wsub (t_size s) 1 else 0), a')
       | _ => Ok (CC_ERR_KEY_NOT_FOUND, None, s, a)
@@ -225,7 +225,7 @@ Definition tst_remove_all (s : table) (a : alloc_st) : res (table * alloc_st) :=
   Ok (set_tree s Leaf (wsub (t_size s) (count_eow (t_root s))), a').
 
 Definition tst_destroy (s : table) (a : alloc_st) : res alloc_st :=
-  do '(s', a1) <- tst_remove_all s a; release (t_mem s) (t_hdr s) a1.
+  do (s', a1) <- tst_remove_all s a; release (t_mem s) (t_hdr s) a1.
 
 (** ------------------------------------------------------------------ iterator *)
 (** node pointers: paths with the deepest step first, [None] = NULL *)
@@ -301,7 +301,7 @@ Definition tst_iter_next (root : tst) (it : iter) : res (stat * option (key * N)
       end
     else Ok (it_stat it, None, it')
   else
-    do '(st, out, (cur, next, prev)) <- iter_loop (iter_fuel root) root (it_next it) (it_cur it);
+    do (st, out, (cur, next, prev)) <- iter_loop (iter_fuel root) root (it_next it) (it_cur it);
     Ok (st, out, {| it_cur := cur; it_next := next; it_prev := prev; it_adv := false; it_stat := it_stat it |}).
 
 Definition tst_iter_remove (s : table) (it : iter) (a : alloc_st)
@@ -312,9 +312,9 @@ Definition tst_iter_remove (s : table) (it : iter) (a : alloc_st)
       match node_at (t_root s) (rev p) with
       | Some (Node _ _ d _ _ _) =>
           do v <- of_opt NullDeref (match d with Some (_, _, v) => Some v | None => None end);
-          do '(st, _, it1) <- tst_iter_next (t_root s) it;
+          do (st, _, it1) <- tst_iter_next (t_root s) it;
           let it2 := {| it_cur := it_cur it1; it_next := it_next it1; it_prev := it_prev it1; it_adv := true; it_stat := st |} in
-          do '(ids, root', _) <- of_opt Dangling (remove_eow_at (t_root s) (rev p));
+          do (ids, root', _) <- of_opt Dangling (remove_eow_at (t_root s) (rev p));
           do a' <- release_all (t_mem s) ids a;
           Ok (CC_OK, Some v, set_tree s root' (wsub (t_size s) 1), it2, a')
       | _ => Fault Dangling
@@ -327,7 +327,7 @@ Fixpoint enum_loop (fuel : nat) (root : tst) (it : iter) (acc : list (key * N)) 
   match fuel with
   | O => Fault OutOfFuel
   | S f =>
-      do '(st, out, it') <- tst_iter_next root it;
+      do (st, out, it') <- tst_iter_next root it;
       if stat_eqb st CC_ITER_END then Ok (rev acc)
       else match out with
            | Some e => enum_loop f root it' (e :: acc)
@@ -344,11 +344,11 @@ Inductive tst_out := OStat (st : stat) | OVal (st : stat) (v : option N) | OBool
 
 Definition tst_step (s : table) (a : alloc_st) (o : tst_op) : res (tst_out * table * alloc_st) :=
   match o with
-  | TAdd k v => do '(st, s', a') <- tst_add s k v a; Ok (OStat st, s', a')
+  | TAdd k v => do (st, s', a') <- tst_add s k v a; Ok (OStat st, s', a')
   | TGet k => let '(st, v) := tst_get s k in Ok (OVal st v, s, a)
   | TContains k => Ok (OBool (tst_contains s k), s, a)
-  | TRemove k => do '(st, v, s', a') <- tst_remove s k a; Ok (OVal st v, s', a')
-  | TRemoveAll => do '(s', a') <- tst_remove_all s a; Ok (OUnit, s', a')
+  | TRemove k => do (st, v, s', a') <- tst_remove s k a; Ok (OVal st v, s', a')
+  | TRemoveAll => do (s', a') <- tst_remove_all s a; Ok (OUnit, s', a')
   | TSize => Ok (ONum (t_size s), s, a)
   end.
 
